@@ -221,6 +221,20 @@ def first_not_none(summ):
             others = [e for e in summ.events if lid in e.loops and e.kind not in ("call", "return")]
             if not others:
                 return li.iter, inl[0].term, lid
+    # next() over a generator of (value, ...) tuples: `hit = next(gen, None); if hit is None: return None; return hit[0]`
+    if len(rets) == 2 and not any(r.loops for r in rets):
+        nones = [r for r in rets if r.term == NONE]
+        vals = [r for r in rets if r.term != NONE]
+        if len(nones) == 1 and len(vals) == 1 and vals[0].term[0] == "sub" and vals[0].term[2] == ("const", 0):
+            nx = vals[0].term[1]
+            if nx[0] == "call" and nx[1] == ("builtin", "next") and len(nx[2]) == 2 and nx[2][1] == NONE and nx[2][0][0] == "comp" \
+                    and nx[2][0][1] == "gen" and len(nx[2][0][3]) == 1 and nx[2][0][2][0] == "tuple" and nx[2][0][2][1]:
+                g = nx[2][0]
+                lid, it, conds = g[3][0]
+                v = g[2][1][0]
+                if ("cmp", "is", nx, NONE) in conjuncts(nones[0].live) and ("cmp", "isnot", nx, NONE) in conjuncts(vals[0].live) \
+                        and list(conds) == [("cmp", "isnot", v, NONE)]:
+                    return it, v, lid
     # next() spelling
     if len(rets) == 1 and not rets[0].loops:
         t = rets[0].term
